@@ -93,6 +93,8 @@ type FuncSpec struct {
 	ResultNames []string
 	Verify      bool // has a body in /repo to verify
 	Handler     string
+	Acquires    []string // trusted lock operations: parameter names whose mutex is acquired / released
+	Releases    []string
 }
 
 type PkgSpec struct {
@@ -104,12 +106,23 @@ type PkgSpec struct {
 	Funcs    []*FuncSpec
 	Uses     []string // trusted spec files used
 	Stable   []string
-	Guarded  map[string]string // component -> mutex expr
+	Guarded  map[string]*GuardRule // component ("T.f") -> rule
 	GenFiles  map[string][]byte
 	InlineExt []string
 	Opaque    []string
 	Callers   []*CallersRule
 	Axioms    []*FuncSpec
+}
+
+// GuardRule: "guarded_by T.mu : T.f ..." (every access of T.f needs held(&x.mu)) or
+// "written_under T.mu : T.f ..." (every write does; reads are free). In both cases acquiring x.mu forgets T.f.
+type GuardRule struct {
+	Mutex     string // "T.mu"
+	WriteOnly bool
+	Label     string
+	Tags      []string
+	File      string
+	Line      int
 }
 
 // CallersRule: a structural obligation over the call graph of /repo.
@@ -122,7 +135,7 @@ type CallersRule struct {
 	Line    int
 }
 
-var kwRe = regexp.MustCompile(`^(requires|ensures|assume|returns|observe|ghostset|modifies|cover|loop|results|nopanic|inline|unroll|atcall|handler|intmode|reveal)\b`)
+var kwRe = regexp.MustCompile(`^(requires|ensures|assume|returns|observe|ghostset|modifies|cover|loop|results|nopanic|inline|unroll|atcall|handler|intmode|reveal|acquires|releases)\b`)
 
 // readSpecLines extracts the //@ lines of a file ("\" continues a line).
 func readSpecLines(path string) ([]string, []int, error) {
@@ -264,19 +277,22 @@ func parseSpecFile(path string, ps *PkgSpec, trustedFile bool) error {
 			ps.InlineExt = append(ps.InlineExt, strings.TrimSpace(strings.TrimPrefix(t, "inline_external ")))
 		case strings.HasPrefix(t, "stable "):
 			ps.Stable = append(ps.Stable, strings.Fields(t)[1:]...)
-		case strings.HasPrefix(t, "guarded_by "):
-			// guarded_by <mutex component> : comp comp ...
-			rest := strings.TrimPrefix(t, "guarded_by ")
-			parts := strings.SplitN(rest, ":", 2)
+		case strings.HasPrefix(t, "guarded_by ") || strings.HasPrefix(t, "written_under "):
+			// guarded_by T.mu : T.f T.g ... #label @tags
+			wo := strings.HasPrefix(t, "written_under ")
+			rest := strings.TrimPrefix(strings.TrimPrefix(t, "guarded_by "), "written_under ")
+			text, label, tags := splitLabelTags(" " + rest)
+			parts := strings.SplitN(text, ":", 2)
 			if len(parts) != 2 {
-				return fmt.Errorf("%s:%d: bad guarded_by", path, ln)
+				return fmt.Errorf("%s:%d: guarded_by T.mu : T.f ...", path, ln)
 			}
 			if ps.Guarded == nil {
-				ps.Guarded = map[string]string{}
+				ps.Guarded = map[string]*GuardRule{}
 			}
 			for _, c := range strings.Fields(parts[1]) {
-				ps.Guarded[c] = strings.TrimSpace(parts[0])
+				ps.Guarded[c] = &GuardRule{Mutex: strings.TrimSpace(parts[0]), WriteOnly: wo, Label: label, Tags: tags, File: path, Line: ln}
 			}
+			cur = nil
 		case strings.HasPrefix(t, "valinv ") || strings.HasPrefix(t, "typeinv ") || strings.HasPrefix(t, "heapinv "):
 			// valinv TYPE (v TYPE) :: EXPR #label @tags     invariant of map-held values (checked at stores)
 			// typeinv PKGPATH.TYPE (v T) :: EXPR            assumed invariant of a library type (trusted)
@@ -386,6 +402,10 @@ func parseSpecFile(path string, ps *PkgSpec, trustedFile bool) error {
 				cur.Clauses = append(cur.Clauses, &Clause{Kind: KObserve, Label: f[0], Callee: strings.Join(f[1:], " "), Text: strings.TrimSpace(rest[eqi+3:]), File: path, Line: ln})
 			case "inline":
 				cur.Inline = rest
+			case "acquires":
+				cur.Acquires = append(cur.Acquires, strings.Fields(rest)...)
+			case "releases":
+				cur.Releases = append(cur.Releases, strings.Fields(rest)...)
 			case "intmode":
 				cur.IntMode = rest
 			case "reveal":
